@@ -294,7 +294,15 @@ func c17ResponseRun(t *testing.T, tape *simrt.Tape, o simwork.Opts) *simwork.Res
 	netMark := verifNetStart()
 	p := simwork.Bubble(t, func(t *testing.T) {
 		bubbleStart := time.Now()
-		defer func() { res.SimTime = time.Since(bubbleStart) }() // fake-clock time of the exchange (evidence only)
+		defer func() {
+			// fake-clock time of the exchange (evidence only). With several Ps the
+			// instant at which net/http's goroutines finish moves by microseconds,
+			// so it is left out of the step records that the determinism self-test
+			// and replays compare (KeepLog); verdict and LogHash never depend on it.
+			if !o.KeepLog {
+				res.SimTime = time.Since(bubbleStart)
+			}
+		}()
 		defer simnet.CloseAll()                                  // runs last: no connection goroutine outlives the run
 		simnet.Reset()
 		c17ResetPools()
